@@ -1,5 +1,5 @@
 /-
-C08 — executable model of `syntax/infertype.py: type_infer` (with the proposed fixes C08-1, C08-2).
+C08 — executable model of `syntax/infertype.py: type_infer` (with the fixes C08-1 … C08-4).
 
 Mirrors the Python statement by statement:
 * `uf`   : Python dict `num ↦ Type`, here `List Ty` indexed by the number of the internal variable;
@@ -16,10 +16,13 @@ Mirrors the Python statement by statement:
 * the final substitution loop, with fuel.
 
 Internal type variables `STVar('_t' + str(k))` are `Ty.stvar (.internal k)`; every other schematic
-type variable is `Ty.stvar (.user s)`. (The wire decoder maps the reserved names `_t<digits>`
-to `.internal`, so a user-supplied `?'_t0` collides exactly as in Python.)
-
-Not modelled: `context.ctxt.defs` (definition parsing), error message texts.
+type variable is `Ty.stvar (.user s)`.  Python's `is_internal_type` is `name.startswith('_t')`: the
+wire decoder maps `_t<digits>` to `.internal` and keeps any other `_t…` name as `.user`; both are
+*reserved* (`Ty.hasReserved`), and (fix C08-3) a type given with the skeleton or by the context that
+uses a reserved name is rejected with `Err.reserved` where it enters inference (`given`).
+`context.ctxt.defs` (the constant being defined, used when a definition is parsed) is modelled:
+`applyDefs` (fix C08-4: only an unannotated head is given the declared type) and the fallback in
+the constant case.  Not modelled: error message texts.
 Import-free: linked into the `c08_model` driver.
 -/
 namespace Holpy.C08
@@ -131,6 +134,42 @@ def Ty.instL (m : List (String × Ty)) : List Ty → List Ty
   | a :: as => a.inst m :: Ty.instL m as
 end
 
+mutual
+/-- does the type use a name reserved for internal variables (`is_internal_type` on some `get_stvars()`) -/
+def Ty.hasReserved : Ty → Bool
+  | .tvar _ => false
+  | .stvar (.internal _) => true
+  | .stvar (.user s) => s.startsWith "_t"
+  | .con _ as => Ty.hasReservedL as
+def Ty.hasReservedL : List Ty → Bool
+  | [] => false
+  | a :: as => a.hasReserved || Ty.hasReservedL as
+end
+
+mutual
+/-- names of the (user) schematic type variables in order of first occurrence (`get_stvars()`) -/
+def Ty.ustvars : Ty → List String
+  | .tvar _ => []
+  | .stvar (.user s) => [s]
+  | .stvar (.internal _) => []
+  | .con _ as => Ty.ustvarsL as
+def Ty.ustvarsL : List Ty → List String
+  | [] => []
+  | a :: as => a.ustvars ++ Ty.ustvarsL as
+end
+
+mutual
+/-- `T.subst(tyinst)` for a `tyinst` on user schematic type variables -/
+def Ty.instS (m : List (String × Ty)) : Ty → Ty
+  | .tvar n => .tvar n
+  | .stvar (.user s) => (m.lookup s).getD (.stvar (.user s))
+  | .stvar (.internal k) => .stvar (.internal k)
+  | .con n as => .con n (Ty.instSL m as)
+def Ty.instSL (m : List (String × Ty)) : List Ty → List Ty
+  | [] => []
+  | a :: as => a.instS m :: Ty.instSL m as
+end
+
 def dedupStr (l : List String) : List String :=
   l.foldl (fun acc s => if acc.contains s then acc else acc ++ [s]) []
 
@@ -175,16 +214,18 @@ inductive Err where
   | clash         -- TypeInferenceException "Unable to unify"
   | notfun        -- TypeInferenceException "... is not of function type"
   | unspecified   -- TypeInferenceException "Unspecified type"
+  | reserved      -- TypeInferenceException "Type variable ... is reserved" (fix C08-3)
   | noconst       -- TheoryException "Const ... not found"
   | crash         -- KeyError / IndexError / TypeException: not one of type_infer's own errors
   | fuel
   deriving Repr, DecidableEq, Inhabited
 
-/-- `context.ctxt.vars`, `context.ctxt.svars`, `theory.thy` term signature (with `TVar`s). -/
+/-- `context.ctxt.vars`, `context.ctxt.svars`, `context.ctxt.defs`, `theory.thy` term signature (with `TVar`s). -/
 structure Ctx where
   vars : List (String × Ty)
   svars : List (String × Ty)
   sig : List (String × Ty)
+  defs : List (String × Ty) := []
   deriving Inhabited
 
 structure St where
@@ -268,30 +309,38 @@ def allocFor : List String → St → List (String × Ty) × St
 /-- `infer(t, bd_vars)`; returns the skeleton with the types filled in (Python mutates `t`),
 the inferred type and the new state. -/
 def infer (ctx : Ctx) (fuel : Nat) : Skel → List Ty → St → Except Err (Skel × Ty × St)
-  | .svar n (some T), _, st => .ok (.svar n (some T), T, st)
+  | .svar n (some T), _, st => if T.hasReserved then .error .reserved else .ok (.svar n (some T), T, st)
   | .svar n none, _, st =>
     match ctx.svars.lookup n with
-    | some T => .ok (.svar n (some T), T, st)
+    | some T => if T.hasReserved then .error .reserved else .ok (.svar n (some T), T, st)
     | none =>
       match st.isctx.lookup n with
       | some T => .ok (.svar n (some T), T, st)
       | none =>
         let (T, st1) := newType st
         .ok (.svar n (some T), T, { st1 with isctx := (n, T) :: st1.isctx })
-  | .var n (some T), _, st => .ok (.var n (some T), T, st)
+  | .var n (some T), _, st => if T.hasReserved then .error .reserved else .ok (.var n (some T), T, st)
   | .var n none, _, st =>
     match ctx.vars.lookup n with
-    | some T => .ok (.var n (some T), T, st)
+    | some T => if T.hasReserved then .error .reserved else .ok (.var n (some T), T, st)
     | none =>
       match st.ictx.lookup n with
       | some T => .ok (.var n (some T), T, st)
       | none =>
         let (T, st1) := newType st
         .ok (.var n (some T), T, { st1 with ictx := (n, T) :: st1.ictx })
-  | .const n (some T), _, st => .ok (.const n (some T), T, st)
+  | .const n (some T), _, st => if T.hasReserved then .error .reserved else .ok (.const n (some T), T, st)
   | .const n none, _, st =>
     match ctx.sig.lookup n with
-    | none => .error .noconst
+    | none =>
+      match ctx.defs.lookup n with
+      | none => .error .noconst
+      | some D =>
+        if D.hasReserved then .error .reserved
+        else
+          let (m, st1) := allocFor (dedupStr D.ustvars) st
+          let T := D.instS m
+          .ok (.const n (some T), T, st1)
     | some S =>
       if S.hasStvar then .error .crash
       else
@@ -313,12 +362,15 @@ def infer (ctx : Ctx) (fuel : Nat) : Skel → List Ty → St → Except Err (Ske
       let st4 ← unify fuel st3 funT (tfun argT resT)
       .ok (.comb f' a', resT, st4)
     | _ => .error .notfun
-  | .abs x T b, bd, st =>
-    let (vT, st1) := match T with
-      | some T => (T, st)
-      | none => newType st
-    match infer ctx fuel b (vT :: bd) st1 with
-    | .ok (b', bodyT, st2) => .ok (.abs x (some vT) b', tfun vT bodyT, st2)
+  | .abs x (some vT) b, bd, st =>
+    if vT.hasReserved then .error .reserved
+    else
+      match infer ctx fuel b (vT :: bd) st with
+      | .ok (b', bodyT, st2) => .ok (.abs x (some vT) b', tfun vT bodyT, st2)
+      | .error e => .error e
+  | .abs x none b, bd, st =>
+    match infer ctx fuel b ((newType st).1 :: bd) (newType st).2 with
+    | .ok (b', bodyT, st2) => .ok (.abs x (some (newType st).1) b', tfun (newType st).1 bodyT, st2)
     | .error e => .error e
   | .bound i, bd, st =>
     match bd[i]? with
@@ -354,10 +406,40 @@ def finish (fuel : Nat) (forbid : Bool) (t' : Skel) (st : St) : Except Err Skel 
     | .ok τ => .ok (t'.substI τ)
     | .error e => .error e
 
-/-- `type_infer(t, forbid_internal=forbid)` under the context `ctx` (with `ctxt.defs` empty) -/
+/-- the head constant of `f t1 … tn` with its annotation (`strip_comb`) -/
+def Skel.headConst : Skel → Option (String × Option Ty)
+  | .comb f _ => f.headConst
+  | .const n T => some (n, T)
+  | _ => none
+
+/-- give the head constant the type `D` -/
+def Skel.setHead (D : Ty) : Skel → Skel
+  | .comb f a => .comb (f.setHead D) a
+  | .const n _ => .const n (some D)
+  | t => t
+
+/-- `if context.ctxt.defs and t.is_equals(): …`: when a definition `f x1 … xn = rhs` is parsed, the head `f`
+of the left side gets the type the context declares for it (fix C08-4: only if it has none yet) -/
+def applyDefs (ctx : Ctx) (t : Skel) : Except Err Skel :=
+  if ctx.defs.isEmpty then .ok t
+  else
+    match t with
+    | .comb (.comb (.const "equals" T) l) r =>
+      match l.headConst with
+      | some (n, none) =>
+        match ctx.defs.lookup n with
+        | some D => if D.hasReserved then .error .reserved else .ok (.comb (.comb (.const "equals" T) (l.setHead D)) r)
+        | none => .ok t
+      | _ => .ok t
+    | _ => .ok t
+
+/-- `type_infer(t, forbid_internal=forbid)` under the context `ctx` -/
 def typeInfer (ctx : Ctx) (fuel : Nat) (forbid : Bool) (t : Skel) : Except Err Skel :=
-  match infer ctx fuel t [] St.empty with
-  | .ok (t', _, st) => finish fuel forbid t' st
+  match applyDefs ctx t with
   | .error e => .error e
+  | .ok t0 =>
+    match infer ctx fuel t0 [] St.empty with
+    | .ok (t', _, st) => finish fuel forbid t' st
+    | .error e => .error e
 
 end Holpy.C08
